@@ -132,7 +132,7 @@ class C15(Check):
         return ([C05.StdoutReader(), C13.RouteMessage()] + [C02.ParseEmitted(k) for k in ("request", "notification", "response", "error")]
                 + [C11.RouteResponse(), C11.SseText("canonical_lf"), C11.SseText("two_events"), C11.SseText("canonical_crlf")]
                 # legacy SSE carrier: the event-stream framing and the POST-reply / event-stream hand-over
-                + [C12.ProcessStream(), C12.SendRequest("event_then_ack"), C12.SendRequest("ack_then_event"), C12.SendRequest("body_200")])
+                + [C12.ProcessStream(), C12.SendRequest("event_then_ack"), C12.SendRequest("ack_then_event"), C12.SendRequest("body_200"), C12.HandleMessageEvent()])
 
     def loop_invariants(self):
         inv = {}
